@@ -20,7 +20,10 @@ from .. import dyn, envs
 from ..desc import sdesc
 from ..pool import pmap
 
-OPS = ['reset', 'step0', 'step1', 'step2', 'obs', 'state', 'oobs', 'ostate']
+# step0 / step2 go through the outer environment, step1 and ireset drive the INNER environment directly (public API,
+# used by the library itself); badstep is an action outside a restricted action space (must raise and change nothing)
+OPS = ['reset', 'step0', 'step1', 'step2', 'obs', 'state', 'oobs', 'ostate', 'ireset', 'badstep']
+CORE_OPS = ['reset', 'step0', 'step1', 'obs', 'oobs', 'ostate', 'badstep']
 
 
 def rng_state(env):
@@ -43,10 +46,16 @@ def judge_sequence(name, seed, seq, repname, acts, fresh_envs=False):
     last_obs = None
     for i, op in enumerate(seq):
         where = f'operation {i} ({op}) of {seq}'
-        if t_state is None and op != 'reset':
+        if t_state is None and op not in ('reset', 'ireset'):
             try:
-                if op.startswith('step'):
-                    outer.step(acts[int(op[4])])
+                if op == 'badstep':
+                    bad = next((x for x in Action if x not in env.action_space.actions), acts[0])
+                    try:
+                        outer.step(bad)
+                    except (RuntimeError, ValueError):
+                        raise RuntimeError('rejected')
+                elif op.startswith('step'):
+                    (env.step if op == 'step1' else outer.step)(acts[int(op[4])])
                 elif op == 'obs':
                     env.observation
                 elif op == 'state':
@@ -62,12 +71,27 @@ def judge_sequence(name, seed, seq, repname, acts, fresh_envs=False):
             except Exception as e:  # noqa: BLE001
                 return f'{where}: before the first reset raised {type(e).__name__}, expected RuntimeError'
             return f'{where}: succeeded before the first reset (expected RuntimeError)'
-        if op == 'reset':
-            outer.reset()
+        if op in ('reset', 'ireset'):
+            if op == 'reset':
+                outer.reset()
+            else:
+                env.reset()
             t_state, t_obs, last_obs = twin.functional_reset(), None, None
+        elif op == 'badstep':
+            bad = next((x for x in Action if x not in env.action_space.actions), None)
+            if bad is None:
+                continue
+            try:
+                outer.step(bad)
+            except ValueError:
+                pass
+            except Exception as e:  # noqa: BLE001
+                return f'{where}: an action outside the action space raised {type(e).__name__}, expected ValueError'
+            else:
+                return f'{where}: an action outside the action space was accepted'
         elif op.startswith('step'):
             a = acts[int(op[4])]
-            r, d = outer.step(a)
+            r, d = (env.step(a) if op == 'step1' else outer.step(a))
             t_state, tr, td = twin.functional_step(t_state, a)
             t_obs, last_obs = None, None
             if r != tr or bool(d) != bool(td):
@@ -112,12 +136,12 @@ def judge_sequence(name, seed, seq, repname, acts, fresh_envs=False):
 
 
 def _work(job):
-    name, seed, repname, first, depth = job
+    name, seed, repname, first, depth, full = job
     env = envs.fresh(name, seed)
     acts = pick_actions(env)
     n = ops = 0
     fails = []
-    for rest in itertools.product(OPS, repeat=depth - 1):
+    for rest in itertools.product(OPS if full else CORE_OPS, repeat=depth - 1):
         seq = [first] + list(rest)
         n += 1
         ops += len(seq)
@@ -144,23 +168,21 @@ def run(rep, tier, seed):
     if tier == 'quick':
         cfgs = [('synthetic', 'default', 5), ('teleport.5x5', 'compact', 5), ('keydoor.5x5', 'no-overlap', 4),
                 ('dynamic_obstacles.5x5', 'default', 4), ('memory.5x5', 'compact', 4), ('four_rooms.7x7', 'no-overlap', 4),
-                ('crossing.7x7', 'default', 3), ('memory_four_rooms.7x7', 'compact', 3)]
+                ('crossing.7x7', 'default', 3), ('memory_four_rooms.7x7', 'compact', 3), ('empty.4x4', 'default', 5)]
         seeds = [base, base + 1]
     else:
         cfgs = [('synthetic', 'default', 6), ('teleport.5x5', 'compact', 5), ('keydoor.5x5', 'no-overlap', 5),
                 ('dynamic_obstacles.5x5', 'default', 5), ('memory.5x5', 'compact', 4), ('four_rooms.7x7', 'no-overlap', 4),
                 ('crossing.7x7', 'default', 4), ('memory_four_rooms.7x7', 'compact', 4), ('keydoor.7x7', 'default', 4),
-                ('synthetic', 'compact', 4), ('dynamic_obstacles.7x7', 'no-overlap', 4)]
+                ('synthetic', 'compact', 4), ('dynamic_obstacles.7x7', 'no-overlap', 4), ('empty.4x4', 'default', 6)]
         seeds = [base, base + 1, base + 2]
     jobs = []
     for name, repname, depth in cfgs:
         for sd in seeds:
-            for d in range(1, depth + 1):
-                for first in OPS:
-                    if d == 1:
-                        jobs.append((name, sd, repname, first, 1))
-                    elif d == depth:
-                        jobs.append((name, sd, repname, first, d))
+            for first in OPS:
+                jobs.append((name, sd, repname, first, depth - 1, True))   # all 10 operations to depth-1
+            for first in CORE_OPS:
+                jobs.append((name, sd, repname, first, depth, False))      # the 7 core operations to full depth
     # sequences shorter than `depth` are prefixes of the depth-long ones and are checked operation by operation there
     jobs.sort(key=lambda j: -j[4])
     n = ops = 0
@@ -172,7 +194,8 @@ def run(rep, tier, seed):
     fails.sort(key=lambda f: f['simplicity'])
     dyn.report_fails(rep, fails, replay)
     rep.bounds = {'operations': OPS, 'configs': [f'{c} [{r}] depth {d}' for c, r, d in cfgs], 'seeds': seeds,
-                  'note': 'every sequence of exactly `depth` operations (all shorter ones are its prefixes, checked op by op)'}
+                  'core_operations': CORE_OPS,
+                  'note': 'all sequences of depth-1 over the 10 operations and of full depth over the 7 core operations (shorter ones are prefixes, checked op by op)'}
     rep.part('sequences', sequences=n, operations=ops)
     rep.sample({'kind': 'seq', 'config': 'synthetic', 'seed': seeds[0], 'rep': 'default', 'seq': ['obs', 'reset', 'oobs', 'obs']})
     rep.exhaustive = False
